@@ -514,12 +514,12 @@ def gen_e2e_tree(rng, max_depth=5, max_leaves=10):
 
 
 def make_problem(rng, tree=None, n_cells=None, max_depth=5, max_leaves=10,
-                 duplicate_cells=False, ids='mixed'):
+                 duplicate_cells=False, ids='mixed', n_genes=None):
     """a self-contained (JSON-able) mapping problem"""
     if tree is None:
         tree = gen_e2e_tree(rng, max_depth=max_depth, max_leaves=max_leaves)
     mp = pipeline.MappingProblem(rng, tree=copy.deepcopy(tree),
-                                 n_cells=n_cells)
+                                 n_cells=n_cells, n_genes=n_genes)
     n = len(mp.cell_ids)
     X = [[float(v) for v in row] for row in mp.X]
     if duplicate_cells and n >= 2:
@@ -633,7 +633,8 @@ def _run_problem_in(d, problem, cfg, tree, markers, want_trace, tmp_dir):
         bootstrap_factor=cfg['bootstrap_factor'],
         bootstrap_iteration=cfg['bootstrap_iteration'],
         rng_seed=cfg['rng_seed'], n_runners_up=cfg['n_runners_up'],
-        flatten=cfg['flatten'], drop_level=cfg['drop_level'], csv=False)
+        flatten=cfg['flatten'], drop_level=cfg['drop_level'], csv=False,
+        min_markers=cfg.get('min_markers', 1))
     old = os.environ.get('CELL_TYPE_MAPPER_VERIF_TRACE')
     old_tmpdir = os.environ.get('TMPDIR')
     old_tempdir = tempfile.tempdir
@@ -696,6 +697,25 @@ def flatten_root_genes_fail(problem, markers, nodes):
     return None
 
 
+def rename_levels(tree, names):
+    """the same taxonomy with other level names (hierarchy order kept)"""
+    h = tree['hierarchy']
+    out = {'hierarchy': list(names)}
+    for old, new in zip(h, names):
+        out[new] = copy.deepcopy(tree[old])
+    return out
+
+
+def node_genes(nodes):
+    """hook trace -> {parent key string: gene list the node voted on}"""
+    out = {}
+    for e in nodes or []:
+        p = e.get('parent')
+        out[marker_key(None if p is None else tuple(p))] = \
+            list(e['query_genes'])
+    return out
+
+
 def marker_entries(tree, table):
     """marker table {key string: genes} -> [(None | (level, node), genes)];
     keys naming no parent of the tree are split at the first '/' (level names
@@ -734,7 +754,8 @@ def model_flat_setup(ctx, problem, cfg, nodes):
                    'flatten': cfg['flatten'], 'chunkSize': cfg['chunk_size'],
                    'nProc': cfg['n_processors']},
         'lookup': can.lookup(entries), 'Q': can.ids(problem['query_genes']),
-        'R': can.ids(problem['ref_genes']), 'm': 1})
+        'R': can.ids(problem['ref_genes']),
+        'm': cfg.get('min_markers', 1)})
     if 'err' in out['setup']:
         return {'field': 'setup', 'model': out['setup']}
     union = sorted({g for _, v in entries for g in v})
